@@ -33,10 +33,10 @@ type voTrack struct {
 }
 
 type voOp struct {
-	T   int `json:"t"`
-	Toc int `json:"toc"`
-	B1  int `json:"b1"`
-	N   int `json:"n"`
+	T   int  `json:"t"`
+	Toc int  `json:"toc"`
+	B1  int  `json:"b1"`
+	N   int  `json:"n"`
 	Ok  bool `json:"ok"`
 }
 
